@@ -69,6 +69,27 @@ Theorem C52_empty_part_refuted :
     from_qualified_name ua us (quoted_flat_name (mkcol (Some (Bare [])) [120])) = mkcol None [46; 120].
 Proof. exact empty_part_refuted. Qed.
 
+(* ---- the fallback parser used when datafusion-common is built WITHOUT the sql feature
+   (cfg(not(feature = sql)) parse_identifiers / parse_identifiers_normalized in utils/mod.rs).
+   Same statement; the side condition is weaker: only the LAST part must be non-empty. *)
+Theorem C52_ns_table_ref_roundtrip :
+  forall (r : tref) (ignore_case : bool),
+    ref_ok_ns r = true -> parse_str_normalized_ns (to_quoted_string r) ignore_case = r.
+Proof. exact ns_table_ref_roundtrip. Qed.
+
+Theorem C52_ns_column_roundtrip :
+  forall (c : column), col_ok_ns c = true -> from_qualified_name_ns (quoted_flat_name c) = c.
+Proof. exact ns_column_roundtrip. Qed.
+
+(* ... and it is needed: an empty LAST part is silently dropped, so the text resolves to a different
+   well-formed reference (schema t, empty table  ->  bare table t). *)
+Theorem C52_ns_empty_last_refuted :
+  parse_str_ns (to_quoted_string (Partial [116] [])) = Bare [116] /\
+  parse_str_ns (to_quoted_string (Full [99] [115] [])) = Partial [99] [115] /\
+  from_qualified_name_ns (quoted_flat_name (mkcol (Some (Bare [116])) [])) = mkcol None [116] /\
+  parse_str_ns (to_quoted_string (Full [] [] [116])) = Full [] [] [116].
+Proof. exact ns_empty_last_refuted. Qed.
+
 (* non-vacuity: the hypotheses hold and the round trip computes on a nasty instance:
    catalog = My.Cat   schema = sch<DQUOTE>ema   table = tAble <U+1F600> 1   column = select *)
 Example C52_nonvacuous :
@@ -81,5 +102,7 @@ Example C52_nonvacuous :
      34; 116; 65; 98; 108; 101; 32; 128512; 32; 49; 34] /\
   parse_str f f (to_quoted_string r) = r /\
   from_qualified_name f f (quoted_flat_name c) = c /\
-  ref_ok (Partial [] [116]) = false.
+  ref_ok (Partial [] [116]) = false /\
+  ref_ok_ns r = true /\ col_ok_ns c = true /\
+  parse_str_ns (to_quoted_string r) = r /\ from_qualified_name_ns (quoted_flat_name c) = c.
 Proof. vm_compute. repeat split. Qed.
